@@ -33,6 +33,9 @@ func c02Monitor(rep *Report, c *L1Case) {
 		v := viewL1(c.Obs[i])
 		ok := v.OK()
 		if o.Kind == "finalize" {
+			if ok && o.Amt.Sign() <= 0 {
+				l1Violate(rep, c, i, "C02:zero-amount-finalized", fmt.Sprintf("a finalization of amount %s%s (bridge %d, sequence %d) was accepted: nothing is paid and nothing is recorded", o.Amt, o.Denom, o.Bridge, o.Seq))
+			}
 			if ok {
 				k := claimKey(o)
 				paidTuple[k]++
@@ -107,6 +110,12 @@ func c02Script(sc *L1Scenario, tier int) {
 	sc.fundEscrow(b, 3000)
 	sc.fundBig(b)
 	base := sc.MakeTree(b, []int{1, 2, 3, 3, 5, 7}[r.Intn(6)])
+	nOrdinary := len(base.Tree.Ws)
+	if r.Chance(75) { // plus leaves paying module accounts / another escrow, zero-amount leaves, twin-denom leaf
+		ws := append(append([]Withdrawal{}, base.Tree.Ws...), sc.specialLeaves(b, sc.NextWSeq[b])...)
+		sc.NextWSeq[b] += uint64(len(ws) - nOrdinary)
+		base = sc.customTree(b, ws)
+	}
 	var live []*ProposedTree // outputs currently stored, by index order
 	var all []*ProposedTree  // every tree ever proposed (stale ones included)
 	propose := func(t *ProposedTree) {
@@ -121,7 +130,7 @@ func c02Script(sc *L1Scenario, tier int) {
 		n = 60
 	}
 	for i := 0; i < n; i++ {
-		switch r.Weighted([]int{18, 40, 8, 10, 8, 10, 6, 14, 8, 12}) {
+		switch r.Weighted([]int{18, 40, 8, 10, 8, 10, 6, 14, 8, 12, 16, 10}) {
 		case 0:
 			sc.Advance([]int64{period, period + sec, sec, 1}[r.Intn(4)])
 		case 1: // claim a leaf against an output that was proposed with a tree containing it
@@ -171,6 +180,19 @@ func c02Script(sc *L1Scenario, tier int) {
 			op.Bridge, op.Idx = b, pt.Idx
 			op.Amt = new(big.Int).Add(op.Amt, new(big.Int).Mul(two64, big.NewInt(int64(1+r.Intn(2)))))
 			sc.Case.Do(op)
+		case 10: // a special leaf (module-account / escrow recipient, zero amount, twin denom) claimed and resubmitted at once
+			if len(live) == 0 || len(base.Tree.Ws) == nOrdinary {
+				continue
+			}
+			pt := live[r.Intn(len(live))]
+			if len(pt.Tree.Ws) < len(base.Tree.Ws) {
+				continue
+			}
+			sc.claimTwice(pt, nOrdinary+r.Intn(len(base.Tree.Ws)-nOrdinary), b)
+		case 11: // a proven leaf claimed in the other-case twin denom (uinit <-> UINIT)
+			if len(live) > 0 {
+				sc.twinDenomClaim(live[r.Intn(len(live))], b)
+			}
 		case 9: // the claim is submitted again from INSIDE its own payout transfer (receiver-side hook)
 			if len(live) == 0 {
 				continue
@@ -277,7 +299,7 @@ func genC02(seed uint64, tier, outdir string) *Report {
 	rep := runMoneyStream(MoneyStream{Prop: "C02", Weights: w, NRandom: [2]int{12, 150}, Len: [2]int{60, 140},
 		Scripts: []func(*L1Scenario, int){c02Script}, NScript: [2]int{16, 200},
 		Monitors: []L1Monitor{c02Monitor, provenLeafMonitor("C02"), reentryMonitor("C02")}, Extra: c02Exhaustive,
-		Prep: whalePrep, Spice: (*L1Scenario).variantStep, SpicePct: 12,
+		Prep: moneyPrep, Spice: (*L1Scenario).variantStep, SpicePct: 12,
 		Rule: "a case is one L1 history on a fresh instance (scripted resubmission-dense schedule plus random tail, fully random, or one schedule of the exhaustive enumeration); distinct by hash of the op list; non-trivial = at least one finalization accepted and at least one rejected"},
 		seed, tier, outdir)
 	rep.Exhaustive = true
